@@ -2,7 +2,7 @@
    evaluates them by vm_compute on the facts regenerated from the source; Proofs/FaultsStep.v proves that
    they imply the hypotheses of the theorems.  No proofs here. *)
 From Coq Require Import ZArith List Bool String.
-From Verif Require Import Lib.Facts Model.Faults.
+From Verif Require Import Lib.Facts Model.Session Model.Faults.
 Import ListNotations.
 Open Scope list_scope.
 Local Open Scope string_scope.
@@ -57,3 +57,16 @@ Definition stream_first_ok (cstor cretr : list string) : bool :=
 
 (* reply classes *)
 Definition is_2xx (c : list Z) : bool := match c with 50%Z :: _ => true | _ => false end.
+
+(* the verb is served by handler [hname] whose only decorator is the login guard (PWD, PASV: the probes of
+   "the session is still usable") *)
+Definition login_only (table : list (string * (string * list deco * option string))) (verb hname : string) : bool :=
+  match Session.verb_handler table (Session.t_of verb) with
+  | Some h =>
+      String.eqb h hname &&
+      match Session.handler_of table hname with
+      | Some ([DConn [f] _ _], _) => String.eqb f "logged"
+      | _ => false
+      end
+  | None => false
+  end.
